@@ -272,6 +272,10 @@ def evaluate(ctx):
         for m in pick_minimal(ub)[:3]:
             out.violations.append(behav_violation(ctx, m, b, "undefined-behaviour-indicator"))
         out.searched = "all behavioural operations: no abort, no non-variant value"
+        if ctx.tier == "thorough":
+            import miri
+            miri.evaluate(ctx, out)
+            cov["rule"] += "; thorough: a reduced corpus (regression, small-scope and general families, every kind of operation) is also run under Miri"
         cov["rule"] += "; for C02 a result counts as a failure when the process aborts (ub_checks / debug assertions are on) or a yielded discriminant is not a declared one"
         cov["samples"] = sample_ops(ctx, ALL_BEHAV)
     elif pid in ("C09", "C18"):
